@@ -11,7 +11,7 @@ use crate::{
     canon::same,
     engine::{CaseInfo, SubCheck},
     gen::{
-        diff::{mode_name, DiffProfile, LazerExtra},
+        diff::{mode_name, DiffProfile},
         map::{MapProfile, ALL_MODES},
         score::{gen_any_state, gen_consistent_state},
     },
@@ -36,7 +36,7 @@ fn case(t: &mut Tape, info: &mut CaseInfo) -> Result<(), String> {
     let l = reference.len();
     let mut g = GradualPerformance::new_with_mode(c.d.clone(), &c.map, c.target).map_err(|e| format!("ctor: {e}"))?;
     let lazer_non_classic = c.dspec.lazer != Some(false)
-        && !c.dspec.mods.effective_extras(c.target).contains(&LazerExtra::Classic);
+        && !c.dspec.mods.has_classic(c.target);
     let n_steps = t.range(1, 12) as usize;
     let mut p = 0usize;
     let mut steps_ok = 0;
